@@ -62,8 +62,13 @@ fn step(ac: &mut Ac, dt: f64) {
 }
 
 fn record(rng: &mut Rng, ac: &mut Ac) -> (Vec<u8>, &'static str) {
-    let k = ac.k;
     let w = rng.below(100);
+    record_w(rng, ac, w)
+}
+
+/// w selects the kind of record (10..32 = a position report)
+fn record_w(rng: &mut Rng, ac: &mut Ac, w: u64) -> (Vec<u8>, &'static str) {
+    let k = ac.k;
     let ca = rng.below(8) as u8;
     if w < 10 {
         let tc = rng.range(1, 4) as u8;
@@ -248,23 +253,54 @@ pub fn run(a: &Args) {
         let nrec = *rng.pick(&[1usize, 3, 10, 40, 120, 300]);
         let mut ts = *rng.pick(&[0.0f64, 1.0, 1_700_000_000.0, 86_399.5]) + rng.uni(0.0, 1.0);
         let mut recs: Vec<Value> = Vec::new();
-        for _ in 0..nrec {
-            let dt = *rng.pick(&[0.0f64, 0.0, 0.05, 0.2, 0.5, 0.5, 1.0, 1.3, 4.0]);
+        // some aircraft join the history late (their first record comes after the others have been seen for a while)
+        let join: Vec<usize> = (0..acs.len()).map(|i| if i > 0 && rng.chance(0.4) { rng.below(nrec as u64) as usize } else { 0 }).collect();
+        let push = |recs: &mut Vec<Value>, rng: &mut Rng, ac: &mut Ac, ts: f64, forced: Option<u64>| {
+            let (f, kind) = match forced {
+                Some(w) => record_w(rng, ac, w),
+                None => record(rng, ac),
+            };
+            // one record in ten carries a timestamp up to 3 s older than its predecessor's (several receivers, late
+            // delivery): "first" and "latest" record are positions in the history, not extremes of the timestamps
+            let ts_rec = if forced.is_none() && rng.chance(0.1) { (ts - *rng.pick(&[0.4f64, 1.1, 1.6, 3.0])).max(0.0) } else { ts };
+            recs.push(json!({"frame": hexs(&f), "ts": ts_rec, "serial": 1 + rng.below(3), "ac": ac.k, "kind": kind}));
+        };
+        let mut n = 0;
+        while n < nrec {
+            n += 1;
+            // now and then everybody is silent for longer than the 180 s for which the position decoder trusts an old fix
+            let silence = rng.chance(0.03);
+            let dt = if silence { *rng.pick(&[181.0f64, 185.0, 400.0, 3700.0]) } else { *rng.pick(&[0.0f64, 0.0, 0.05, 0.2, 0.5, 0.5, 1.0, 1.3, 4.0]) };
             ts += dt;
-            for ac in acs.iter_mut() {
-                step(ac, dt);
+            if !silence {
+                for ac in acs.iter_mut() {
+                    step(ac, dt);
+                }
+            }
+            let elig: Vec<usize> = (0..acs.len()).filter(|i| join[*i] < n).collect();
+            if silence && rng.chance(0.7) {
+                // return after the silence: one aircraft sends a position, another one (a newcomer when there is one) sends
+                // its own, the first one completes its pair a moment later
+                let a = *rng.pick(&elig);
+                let late: Vec<usize> = (0..acs.len()).filter(|i| *i != a && join[*i] >= n).collect();
+                let others: Vec<usize> = (0..acs.len()).filter(|i| *i != a).collect();
+                push(&mut recs, &mut rng, &mut acs[a], ts, Some(20));
+                if let Some(b) = if !late.is_empty() { Some(*rng.pick(&late)) } else if !others.is_empty() { Some(*rng.pick(&others)) } else { None } {
+                    ts += rng.uni(0.1, 2.0);
+                    push(&mut recs, &mut rng, &mut acs[b], ts, Some(20));
+                }
+                ts += rng.uni(0.1, 2.0);
+                push(&mut recs, &mut rng, &mut acs[a], ts, Some(20));
+                n += 2;
+                continue;
             }
             if rng.chance(0.04) {
                 let (f, kind) = noise(&mut rng);
                 recs.push(json!({"frame": hexs(&f), "ts": ts, "serial": 1 + rng.below(3), "ac": -1, "kind": kind}));
                 continue;
             }
-            let i = rng.below(acs.len() as u64) as usize;
-            let (f, kind) = record(&mut rng, &mut acs[i]);
-            // one record in ten carries a timestamp up to 3 s older than its predecessor's (several receivers, late
-            // delivery): "first" and "latest" record are positions in the history, not extremes of the timestamps
-            let ts_rec = if rng.chance(0.1) { (ts - *rng.pick(&[0.4f64, 1.1, 1.6, 3.0])).max(0.0) } else { ts };
-            recs.push(json!({"frame": hexs(&f), "ts": ts_rec, "serial": 1 + rng.below(3), "ac": acs[i].k, "kind": kind}));
+            let i = *rng.pick(&elig);
+            push(&mut recs, &mut rng, &mut acs[i], ts, None);
         }
         let meta: Vec<Value> = acs.iter().map(|x| json!({"k": x.k, "icao24": format!("{:06x}", x.addr), "df": x.es_df, "surface": x.surface})).collect();
         let reference = json!([lat0, lon0]);
